@@ -169,6 +169,9 @@ func vf14WalkFiles(root, prefix string, out map[string]string) error {
 		}
 		b, err := os.ReadFile(p)
 		if err != nil {
+			if errors.Is(err, fs.ErrNotExist) {
+				return nil // removed while the tree was being walked: absent from this snapshot
+			}
 			return err
 		}
 		h := sha256.Sum256(b)
